@@ -253,7 +253,9 @@ def operator_chain(ctx, rule: str, only: typing.Optional[set[str]] = None) -> No
             ctx.check(got == sym, rule, fn, f'{name} builds {res.name} whose symbol is {got!r} (expected {sym!r})', call)
             want = ['other', 'self'] if reflected else ['self', 'other']
             if sym != 'NOT':
-                ctx.check([core.src(o) for o in operands] == want, rule, fn, f'{name} passes operands as {want}', call, key=f'{name}:operands')
+                # an operand may be cast to a literal on the way (cast(other)); what matters is which operand goes where
+                got_ops = [core.src(o.args[0]) if isinstance(o, ast.Call) and core.call_name(o) == 'cast' and len(o.args) == 1 else core.src(o) for o in operands]
+                ctx.check(got_ops == want, rule, fn, f'{name} passes operands as {want}', call, key=f'{name}:operands')
             if not reflected:
                 val = table.get(res.ref)
                 if val is None:
